@@ -206,3 +206,23 @@ def collection_repr(world, x, depth=0):
                 return world.ident(world.apply_closure(x.args[1], [mk_item(world, x.args[0])]), expand_ws=False)
         return None
     return None
+
+
+def through_closure_call(world, x):
+    """`build(&payload)?` where `build` is a local closure that wraps its argument into a message: the closure's own (single) Ok / plain
+    result with the argument substituted; anything else is returned unchanged"""
+    x0 = world.ident(x, expand_ws=False)
+    inner = x0.args[0] if x0.op == "proj" and x0.info == "ok" and x0.args else x0
+    inner = world.ident(inner, expand_ws=False)
+    cb = world.prog.bodies.get(inner.info) if inner.op == "call" and isinstance(inner.info, str) else None
+    if inner.op == "call" and isinstance(inner.info, str) and len(inner.args) == 2 and \
+            (inner.info.rsplit("::", 1)[-1] in ("call", "call_mut", "call_once") or (cb is not None and cb.kind == "closure")):
+        clo = world.ident(inner.args[0], expand_ws=False)
+        if clo.op == "closure":
+            ta = world.ident(inner.args[1], expand_ws=False)
+            args = list(ta.args) if ta.op == "tuple" else [inner.args[1]]
+            r = world.apply_closure(clo, args)
+            alts = world._ok_alts(r, "ok", 0, False) if x0.op == "proj" else [r]
+            if alts and len(alts) == 1:
+                return alts[0]
+    return x
